@@ -245,8 +245,20 @@ def native_playback(instance, unit, tests, here, out, repo, subst):
                 target_file = os.path.join(root, f)
     if target_file is None:
         return False, "harness source not found"
-    with open(target_file, "a") as f:
-        f.write("\n" + "\n".join(tests) + "\n")
+    txt = open(target_file).read()
+    hpos = re.search(r"fn " + hm.group(1) + r"\(", txt).start()
+    # the tests go NEXT TO the harness (same module, so a private harness inside an inline `mod` is in scope): in front
+    # of the attribute / doc lines that precede it
+    line_start = txt.rfind("\n", 0, hpos) + 1
+    while True:
+        prev_start = txt.rfind("\n", 0, line_start - 1) + 1
+        prev = txt[prev_start:line_start].strip()
+        if line_start > 0 and (prev.startswith("#[") or prev.startswith("///")):
+            line_start = prev_start
+        else:
+            break
+    with open(target_file, "w") as f:
+        f.write(txt[:line_start] + "\n".join(tests) + "\n" + txt[line_start:])
     env = dict(os.environ, CARGO_NET_OFFLINE="true", CARGO_TARGET_DIR=tgt)
     cmd = ["cargo", "kani", "playback", "-Z", "concrete-playback", "--", "kani_concrete_playback"]
     try:
